@@ -7,6 +7,7 @@ import (
 	"go.uber.org/zap/verif/props/c10"
 	"go.uber.org/zap/verif/props/c13"
 	"go.uber.org/zap/verif/props/c14"
+	"go.uber.org/zap/verif/props/c15"
 	"go.uber.org/zap/verif/props/c16"
 	"go.uber.org/zap/verif/props/c17"
 	"go.uber.org/zap/verif/props/c18"
@@ -26,5 +27,6 @@ func init() {
 	register("C10", "fault_enumeration", c10.Run, nil)
 	register("C16", "exploration", c16.Run, nil)
 	register("C18", "exploration", c18.Run, nil)
+	register("C15", "exploration", c15.Run, nil)
 	register("C02", "exploration", encjson.Run02, nil)
 }
